@@ -106,7 +106,7 @@ Proof. reflexivity. Qed.
 Lemma subs_flush c s b : ksubs (do_flush c s b) = ksubs s.
 Proof.
   unfold do_flush. destruct (kq s) as [|[v sq|sq|v sq] q]; try reflexivity.
-  destruct (if bug_rr c then Some (0, 0, 0) else idx_get (kidx s)); reflexivity.
+  destruct (if bug_rr c then Some (sq, 0, 0) else idx_get (kidx s)) as [[[sq1 v1] b1]|]; [destruct (sq1 =? sq)|]; reflexivity.
 Qed.
 Lemma subs_complete s : ksubs (do_complete s) = ksubs s.
 Proof. unfold do_complete. destruct (ki s) as [|[v sq|sq|v sq] q]; reflexivity. Qed.
@@ -153,9 +153,9 @@ Proof.
       destruct (kq s) as [|x q] eqn:Hkq; [destruct q1; discriminate|].
       assert (Hstep : KInv c (do_flush c s b)) by (apply kinv_flush; auto).
       assert (Htop' : ktop (do_flush c s b) = ktop s).
-      { unfold do_flush. rewrite Hkq. destruct x; try reflexivity. rewrite Hrr. destruct (idx_get (kidx s)); reflexivity. }
+      { unfold do_flush. rewrite Hkq. destruct x; try reflexivity. rewrite Hrr. destruct (idx_get (kidx s)) as [[[sq1 v1] b1]|]; [destruct (sq1 =? _)|]; reflexivity. }
       assert (Hmem' : kmem (do_flush c s b) = kmem s).
-      { unfold do_flush. rewrite Hkq. destruct x; try reflexivity. rewrite Hrr. destruct (idx_get (kidx s)); reflexivity. }
+      { unfold do_flush. rewrite Hkq. destruct x; try reflexivity. rewrite Hrr. destruct (idx_get (kidx s)) as [[[sq1 v1] b1]|]; [destruct (sq1 =? _)|]; reflexivity. }
       destruct q1 as [|y q1'].
       * (* our entry is flushed *)
         cbn in Hq. inversion Hq; subst x q. clear Hq.
@@ -179,13 +179,13 @@ Proof.
         rewrite Htop', Hmem' in IH. apply IH; auto.
         -- left. exists q1'. unfold do_flush. rewrite Hkq.
            destruct y; cbn [kq set_i set_idx set_disk set_q set_tlog]; try reflexivity.
-           rewrite Hrr. destruct (idx_get (kidx s)); reflexivity.
+           rewrite Hrr. destruct (idx_get (kidx s)) as [[[sq1 v1] b1]|]; [destruct (sq1 =? _)|]; reflexivity.
         -- cbn [length] in Hf.
            unfold do_flush. rewrite Hkq. destruct y as [v0 sq0|sq0|v0 sq0].
            ++ cbn [kq ki set_i set_idx set_disk set_q set_tlog]. rewrite Hki. cbn [app length]. lia.
            ++ cbn [kq ki set_i set_idx set_disk set_q set_tlog]. rewrite Hki. cbn [app length]. lia.
-           ++ rewrite Hrr. destruct (idx_get (kidx s)); cbn [kq ki set_i set_idx set_disk set_q set_tlog];
-                rewrite ?Hki; cbn [app length]; lia.
+           ++ rewrite Hrr. destruct (idx_get (kidx s)) as [[[sq1 v1] b1]|]; [destruct (sq1 =? sq0)|];
+                cbn [kq ki set_i set_idx set_disk set_q set_tlog]; rewrite ?Hki; cbn [app length]; lia.
     + (* complete the oldest indexed submission *)
       assert (Hstep : KInv c (do_complete s)) by (apply kinv_complete; auto).
       assert (Htop' : ktop (do_complete s) = ktop s) by (unfold do_complete; rewrite Hki; destruct h; reflexivity).
@@ -291,7 +291,7 @@ Proof.
     { induction fuel as [|f IH]; intros s0; cbn [drain]; [reflexivity|].
       destruct (ki s0) as [|h i']; [destruct (kq s0) as [|x q]; [reflexivity|]|].
       - rewrite IH. unfold do_flush. destruct (kq s0) as [|[v sq|sq|v sq] q0]; try reflexivity.
-        destruct (if bug_rr c then Some (0, 0, 0) else idx_get (kidx s0)); reflexivity.
+        destruct (if bug_rr c then Some (_, 0, 0) else idx_get (kidx s0)) as [[[sq1 v1] b1]|]; [destruct (sq1 =? _)|]; reflexivity.
       - rewrite IH. unfold do_complete. destruct (ki s0) as [|[v sq|sq|v sq] i0]; reflexivity. }
     rewrite Hd. destruct (foc c && negb (woi c)); [|reflexivity].
     unfold do_evict. destruct (kmem s) as [[[v l] a]|]; [|reflexivity]. destruct (woi c); [reflexivity|].
@@ -343,7 +343,7 @@ Proof.
     unfold drain_all. cbn [kq ki set_q set_idx set_disk length]. rewrite Hi. cbn [length Nat.add Nat.mul].
     cbn [drain ki kq set_q set_idx set_disk]. rewrite Hi.
     unfold do_flush. cbn [kq ki kidx kdisk set_q set_idx set_disk set_i]. rewrite Hrr, Hidx. cbn [idx_get idx_insert iseq].
-    rewrite N.leb_refl. rewrite Hi. cbn [app drain ki kq set_i set_idx set_disk set_q].
+    rewrite N.eqb_refl, N.leb_refl. rewrite Hi. cbn [app drain ki kq set_i set_idx set_disk set_q].
     unfold do_complete. cbn [ki kq set_i set_idx set_disk set_q drain].
     unfold lookup_now, disk_lookup, disk_lookup2. cbn [kmem kkeep kidx kdisk set_i set_idx set_disk set_q idx_get].
     rewrite Hm, Hk. rewrite (on_disk_in _ v sq b'); [reflexivity|]. apply in_or_app; right; left; auto.
